@@ -481,4 +481,41 @@ theorem range_refines (body : Nat → List DOp) (stop : Nat → Bool) :
           nodeNext_abs h1 e, ASt.rangeAll]
         simpa using r2
 
+/-! ### a struct copy `*b = *a` -/
+
+/-- After copying a NON-EMPTY `DList` by value, the copy's sentinel points into a ring that does
+not come back to it (`first.prev == &a.root`, not `&b.root`): no assignment of sequences satisfies
+the representation invariant any more.  A copied non-empty list is broken by design, exactly as a
+copied `container/list.List`; it is outside the property. -/
+theorem dlist_copy_breaks {s : DSt} {A : Nat → List Nat} {a b : Nat} (h : GInv s A) (ha : a < s.nl)
+    (hb : b < s.nl) (hab : a ≠ b) (hne : A a ≠ []) : ¬ ∃ A', GInv (s.copyList a b) A' := by
+  rintro ⟨A', h'⟩
+  obtain ⟨x, xs, hL⟩ := List.exists_cons_of_ne_nil hne
+  have hr : Ring s.next s.prev (a :: x :: xs) := by
+    have := ginv_ring_of_mem (x := x) h ha (by rw [hL]; simp)
+    rwa [hL] at this
+  simp only [Ring, Seg] at hr
+  have hx := h.nodes a ha x (by rw [hL]; simp)
+  have hxb : x ≠ b := by omega
+  have hnb : (s.copyList a b).next.get b = some x := by simp [DSt.copyList, PM.get_set, hr.1]
+  have hpx : (s.copyList a b).prev.get x = some a := by simp [DSt.copyList, PM.get_set, hxb, hr.2.1]
+  have hI := h'.lists b (show b < (s.copyList a b).nl from hb)
+  rcases hI.ring with ⟨e, _, _⟩ | hring
+  · rw [hnb] at e; cases e
+  · cases hB : A' b with
+    | nil =>
+      rw [hB] at hring
+      simp only [Ring, Seg] at hring
+      rw [hnb] at hring
+      have := Option.some.inj hring.1
+      omega
+    | cons y ys =>
+      rw [hB] at hring
+      simp only [Ring, Seg] at hring
+      rw [hnb] at hring
+      have hy : x = y := Option.some.inj hring.1
+      subst hy
+      rw [hpx] at hring
+      exact hab (Option.some.inj hring.2.1)
+
 end Golib.C13
